@@ -80,7 +80,11 @@ def _extract_defs_astroid(tree: astroid.Module) -> DefsType:
             continue
 
         if isinstance(node, astroid.Assign):
-            expr = ast.parse(node.as_string()).body[0]
+            try:
+                expr = ast.parse(node.as_string()).body[0]
+            except ValueError:
+                # a value that cannot be rendered (too many digits)
+                continue
             for target in node.targets:
                 if not isinstance(target, astroid.AssignName):
                     continue
